@@ -32,7 +32,7 @@ RULE = ("1-4 destinations (one always-healthy reference at a random position, th
         "with a message of its own, a FileDestination whose json_default logs a diagnostic, optionally a failing one in between) run as a one-thread "
         "schedule: no self-deadlock, every destination offered every outer and nested message exactly once, reports == failed deliveries. part 'interrupted_report': 2-3 destinations fail on one message and the delivery of the first report "
         "is cut short by a non-Exception from another destination: the healthy destination (registered first) is still offered one report per failure. A quarter of the random programs run inside an action bound to a logger object of its "
-        "own, half of the hand-overs happen inside an open action. Destination exceptions include ones whose text is the empty string (raised without arguments). part 'deferred': a destination schedules follow-up work for what it is offered, reports included (loop.call_soon, a new asyncio task, a saved copy_context()), which later logs a message of its own; a failure on that message is reported like any other. non-trivial = >=2 faulty destinations or a mask that hits a report; distinct by (program shape, masks)")
+        "own, half of the hand-overs happen inside an open action (a third of those inside an action bound to a MemoryLogger: recorded finding). Destination exceptions include ones whose text is the empty string (raised without arguments). part 'deferred': a destination schedules follow-up work for what it is offered, reports included (loop.call_soon, a new asyncio task, a saved copy_context()), which later logs a message of its own; a failure on that message is reported like any other. non-trivial = >=2 faulty destinations or a mask that hits a report; distinct by (program shape, masks)")
 ASSUMPTIONS = ["destinations raise Exception subclasses (part 'interrupted_report' alone lets one raise a non-Exception, and only while it is offered a failure report)", "under concurrency only per-destination sets, per-thread order and report counts are judged "
                "(destinations may legitimately see different total orders)"]
 EXHAUSTIVE_NOTE = "part 'enum' enumerates every failure mask over the first K calls of D destinations"
@@ -234,6 +234,7 @@ def part_prebuffered(spec, res):
     it = Interp(tape=tape)
     # two further destinations that compare EQUAL to each other (value objects) but are distinct: both must be served
     twins = [EqualRecorder(tape, "twin0"), EqualRecorder(tape, "twin1")]
+    foreign = [None]
 
     def body():
         it.run(p1)  # buffered: no destination exists yet
@@ -241,8 +242,15 @@ def part_prebuffered(spec, res):
             # logging is set up from inside an action (a main() wrapped in one): reports about re-delivered messages are
             # logged while that action is current
             res["counters"]["handovers_inside_an_action"] = res["counters"].get("handovers_inside_an_action", 0) + 1
-            with start_action(action_type="c08:setup", nid=999):
-                add_destinations(*dests)
+            if spec["i"] % 6 == 5:
+                # ... an action bound to a logger object of its own (recorded finding: reports about re-delivered messages go to THAT logger)
+                from eliot import MemoryLogger
+                foreign[0] = MemoryLogger()
+                with start_action(foreign[0], action_type="c08:setup", nid=999):
+                    add_destinations(*dests)
+            else:
+                with start_action(action_type="c08:setup", nid=999):
+                    add_destinations(*dests)
         else:
             add_destinations(*dests)
         add_destinations(twins[0])
@@ -277,7 +285,10 @@ def part_prebuffered(spec, res):
     if failures:
         res["nontrivial"].append(h(["pre", gen.prog_shape(p1), gen.prog_shape(p2), [d[3] for d in dspec if d[0] in ("bad", "closed")]]))
     if problems:
-        res["violations"].append({"msg": problems[0], "mech": None, "detail": {"label": "prebuffered", "problems": problems[:8], "buffered_program": p1,
+        mech = None
+        if foreign[0] is not None and any(m.get("message_type") == "eliot:destination_failure" for m in foreign[0].messages):
+            mech = "handover-report-to-foreign-logger"
+        res["violations"].append({"msg": problems[0], "mech": mech, "detail": {"label": "prebuffered", "problems": problems[:8], "buffered_program": p1,
                                                                                "later_program": p2, "masks": [d[3] for d in dspec if d[0] in ("bad", "closed")]}})
 
 
